@@ -18,8 +18,9 @@ def run(ctx):
         "numpy oracle (sweep_C05.py) also for "
         "Trotter-Suzuki, label interning and string round trip",
         "coq/model/LabelString.v: character-level model of PauliLabel.__str__ / _parse_pauli_label_str (ASCII white space and digits; "
-        "Python's re / str.split / int contracts as modelled), tied by corr_C05_str.py; the WeakValueDictionary intern table itself is "
-        "checked on the real objects only",
+        "Python's re / str.split / int contracts as modelled), tied by corr_C05_str.py; coq/model/Intern.v: the intern table of PauliLabel.__new__ as a "
+        "table keyed by the string form with entries vanishing at any time (weak references; CPython frees a label when its last "
+        "reference goes), run against the real constructors on random histories by corr_C05_intern.py",
         "partial: the sparse formats other than the dense view; non-ASCII white space / digits in label strings; coefficients are exact ring elements in the theorems (binary64 rounding not modelled)",
     ]
     ctx.translate("tables", tables.run_c06, os.path.join(ctx.work, "gen"), os.path.join(ctx.work, "conjtab.json"))
@@ -39,4 +40,5 @@ def run(ctx):
     ctx.harness("corr_C05_export.py", kind="corr")
     ctx.harness("corr_C05_tamp.py", kind="corr")
     ctx.harness("corr_C05_str.py", kind="corr")
+    ctx.harness("corr_C05_intern.py", kind="corr")
     ctx.harness("sweep_C05.py")
